@@ -17,9 +17,10 @@ AddV(vs) == IF VL!Record(vs) THEN verdicts + Len(vs) ELSE verdicts
 V(clause, sig, detail) == [prop |-> "C18", clause |-> clause, sig |-> sig, tid |-> tid, idx |-> l, detail |-> detail]
 Ev(x) == l <= Len(Trace) /\ Trace[l].ev = x
 E == Trace[l]
-Cfg0 == [mode |-> "stub", iv |-> 1, failat |-> 0, quitafter |-> 0, phase |-> "never"]
+Cfg0 == [mode |-> "stub", iv |-> 1, failat |-> 0, quitafter |-> 0, phase |-> "never", ws |-> FALSE]
 
-T_Reset == /\ Ev("reset") /\ tid' = E.tid /\ cfg' = [mode |-> E.mode, iv |-> E.iv, failat |-> E.failat, quitafter |-> E.quitafter, phase |-> E.phase]
+T_Reset == /\ Ev("reset") /\ tid' = E.tid /\ cfg' = [mode |-> E.mode, iv |-> E.iv, failat |-> E.failat, quitafter |-> E.quitafter,
+                                                           phase |-> E.phase, ws |-> ("ws" \in DOMAIN E /\ E.ws)]
            /\ pings' = <<>> /\ startT' = 0 /\ quitAt' = -1 /\ afterQuit' = 0 /\ failed' = FALSE /\ afterFail' = 0 /\ closes' = 0 /\ exits' = 0
            /\ errcb' = 0 /\ discs' = 0 /\ cutSeen' = FALSE /\ l' = l + 1 /\ UNCHANGED verdicts
 T_Start == /\ Ev("start") /\ startT' = E.t
@@ -44,7 +45,7 @@ T_Cut == /\ Ev("cutev") /\ cutSeen' = TRUE
          /\ l' = l + 1 /\ UNCHANGED <<tid, cfg, pings, startT, quitAt, afterQuit, failed, afterFail, closes, exits, errcb, discs, verdicts>>
 
 Judge(e) ==
-    LET sig == cfg.mode \o ":" \o cfg.phase
+    LET sig == cfg.mode \o ":" \o cfg.phase \o (IF cfg.ws THEN "/ws" ELSE "")
         d == [cfg |-> cfg, pings |-> pings, quitAt |-> quitAt, afterQuit |-> afterQuit, closes |-> closes, exits |-> exits, errcb |-> errcb,
               discs |-> discs, obsend |-> e.t]
         \* the window in which keepalives are due
